@@ -48,6 +48,8 @@ func checkGenericProtocol(r *Run) {
 	}
 	// repeated steps factored into a local closure are analysed where they are called
 	body := inlineErrorClosures(info, fd.Body)
+	// … and so are steps factored into a helper function of the package (exit-and-clear, exit-and-pop)
+	body, aliases := inlineCalls(wp, fd, body, 2, nil)
 	g := cfg.New(body, func(call *ast.CallExpr) bool {
 		if id, ok := call.Fun.(*ast.Ident); ok && id.Name == "panic" {
 			return false
@@ -60,7 +62,7 @@ func checkGenericProtocol(r *Run) {
 		ast.Inspect(n, func(m ast.Node) bool {
 			if call, ok := m.(*ast.CallExpr); ok {
 				if sel, ok := call.Fun.(*ast.SelectorExpr); ok {
-					if id, ok := sel.X.(*ast.Ident); ok && info.Uses[id] == visitorObj {
+					if id, ok := sel.X.(*ast.Ident); ok && aliases.Root(info.Uses[id]) == visitorObj {
 						if found == "" {
 							found = sel.Sel.Name
 							fc = call
@@ -76,7 +78,7 @@ func checkGenericProtocol(r *Run) {
 		f := false
 		ast.Inspect(n, func(m ast.Node) bool {
 			if call, ok := m.(*ast.CallExpr); ok {
-				if id, ok := call.Fun.(*ast.Ident); ok && info.Uses[id] == ctorObj {
+				if id, ok := call.Fun.(*ast.Ident); ok && aliases.Root(info.Uses[id]) == ctorObj {
 					f = true
 				}
 			}
@@ -260,7 +262,12 @@ func checkGenericProtocol(r *Run) {
 		r.Undecide("C11-generic: only %d visitor callbacks found in walk.Generic", callbacks)
 	}
 	// nesting: every pop statement `stack = stack[...]` is preceded, in its block chain back to the loop head, by visitor.Exit
-	checkPopsAfterExit(r, fd, g, visitorCall)
+	checkPopsAfterExit(r, fd, g, visitorCall, func(id *ast.Ident) types.Object {
+		if o := info.Uses[id]; o != nil {
+			return aliases.Root(o)
+		}
+		return aliases.Root(info.Defs[id])
+	})
 	// Enter only under first-visit
 	checkEnterFirstVisit(r, fd, info, visitorCall)
 	r.Floor("C11-generic-stop-gates", 5)
@@ -309,20 +316,26 @@ func blockReturns(b *cfg.Block) bool {
 	return walk(b)
 }
 
-func checkPopsAfterExit(r *Run, fd *ast.FuncDecl, g *cfg.CFG, visitorCall func(ast.Node) (string, *ast.CallExpr)) {
-	// pops: assignment whose RHS is a slice expression of the same variable with a High bound
+func checkPopsAfterExit(r *Run, fd *ast.FuncDecl, g *cfg.CFG, visitorCall func(ast.Node) (string, *ast.CallExpr), objOf func(*ast.Ident) types.Object) {
+	// pops: assignment in which a variable receives a slice expression of itself with a High bound (the variable may be
+	// one position of a multiple assignment that came from an inlined helper's return)
 	isPop := func(n ast.Node) bool {
 		as, ok := n.(*ast.AssignStmt)
-		if !ok || len(as.Lhs) != 1 || len(as.Rhs) != 1 {
+		if !ok || len(as.Lhs) != len(as.Rhs) {
 			return false
 		}
-		se, ok := ast.Unparen(as.Rhs[0]).(*ast.SliceExpr)
-		if !ok || se.High == nil {
-			return false
+		for i := range as.Lhs {
+			se, ok := ast.Unparen(as.Rhs[i]).(*ast.SliceExpr)
+			if !ok || se.High == nil {
+				continue
+			}
+			l, ok1 := as.Lhs[i].(*ast.Ident)
+			x, ok2 := se.X.(*ast.Ident)
+			if ok1 && ok2 && objOf(l) != nil && objOf(l) == objOf(x) {
+				return true
+			}
 		}
-		l, ok1 := as.Lhs[0].(*ast.Ident)
-		x, ok2 := se.X.(*ast.Ident)
-		return ok1 && ok2 && l.Name == x.Name
+		return false
 	}
 	preds := map[*cfg.Block][]*cfg.Block{}
 	for _, b := range g.Blocks {
